@@ -28,6 +28,9 @@ except ImportError:  # pragma: no cover  (python < 3.11)
     import sre_constants as sre_c
 
 
+OUTPUTS = ['OalLex.lean']
+
+
 class Shape(Exception):
     pass
 
@@ -541,7 +544,7 @@ def generate(repo_dir):
     w('    first-character sets of the alternatives in the COMMENT rule\'s repetition, and the readers of the')
     w('    spelling-carrying tree fields (cardinality / operator / boolean value) with "is it normalised". -/')
     w('namespace Gen.OalLex')
-    w('open Pyx.Oal')
+    w('open Pyx.OalLex')
     w('')
     w('def keywords : List (List Char) := [')
     w(',\n'.join('  %s' % lstr(k) for k in keywords))
